@@ -8,6 +8,7 @@ CRATE = "e_gcd"
 DRIVER = "drv_gcd"
 DRIVER_MODULE = "Driver.Gcd"
 PROPS = "RlibModel.Props.C11"
+PROPS_SRC = "RlibModel.Props.C11Src"     # second tie: `src_*` theorems about the definitions regenerated from the source text
 PROFILES = ["release"]
 SHRINK_SEP = None
 RULE = ("cases: exhaustive cube for egcd, exhaustive square for gcd/lcm (i64), every (a1,m1,a2,m2) with small moduli for crt, "
